@@ -349,6 +349,11 @@ func (rt *runtime) convertCallParameter(v Value, t reflect.Type) (reflect.Value,
 	return rt.convertCallParameterPath(v, t, map[*object]struct{}{})
 }
 
+// maxConvertDepth is the deepest nesting of script objects that convertCallParameter descends
+// into (a Go type can contain itself: type Node struct{ Next *Node }). Every level is a level of
+// Go recursion, and every level wraps the error of the level below in one of its own.
+const maxConvertDepth = 1000
+
 // convertCallParameterPath is convertCallParameter with the set of script objects currently being
 // converted: an object that contains itself (o.Self = o), converted to a Go type that can contain
 // itself (type Node struct{ Self *Node }), or whose toString returns the object, is an error
@@ -427,6 +432,9 @@ func (rt *runtime) convertCallParameterPath(v Value, t reflect.Type, path map[*o
 	if o := v.object(); o != nil {
 		if _, cyclic := path[o]; cyclic {
 			return reflect.Zero(t), fmt.Errorf("can't convert a cyclic %s to %s", o.class, t)
+		}
+		if len(path) >= maxConvertDepth {
+			return reflect.Zero(t), fmt.Errorf("can't convert to %s: exceeded max depth", t)
 		}
 		path[o] = struct{}{}
 		defer delete(path, o)
